@@ -179,6 +179,15 @@ def run(tier):
     chk = vf.Check(PROP, tier, deadline_s=900 if tier == 'quick' else 7200)
     cases = cat_misc.gen_cases(tier)
     common.run_ref_corpus(chk, cases, 'reference_cases', CFG)
+    # the sponge permutation and the hash in every platform variant of bash-f the CPU can run (BASH_32 / SSE2 / AVX2 / AVX512 have their own
+    # round constants, rotations and lane layouts): same cases, same reference
+    flags = open('/proc/cpuinfo').read()
+    pcases = [c for c in cases if c[0] in ('bash.F', 'bashHash')]
+    if tier == 'quick':
+        pcases = [c for c in pcases if c[0] == 'bash.F'][:400] + [c for c in pcases if c[0] == 'bashHash'][::7]
+    for cfg, need in (('bash32', ''), ('sse2', ' sse2'), ('avx2', ' avx2'), ('avx512', ' avx512f')):
+        if need in flags:
+            common.run_ref_corpus(chk, pcases, 'bash_f_platform_' + cfg, cfg)
     automaton(chk, tier)
     # stateful one-time-password generators (one state, many requests of different lengths / counters / times): the explicit-state
     # bundles of C10, whose oracle -- the one-shot function -- is tied to the standard by the reference cases above
